@@ -13,6 +13,8 @@ INTERESTING = [0, 1, 2, 0x7f, 0x80, 0xfc, 0xfd, 0xfe, 0xff, 0x100, 0x7fff, 0x800
 
 
 def sample(ty, rng):
+    if isinstance(ty, api.Secret):
+        return sample(ty.inner, rng)
     if isinstance(ty, api._Int):
         lo = ty.lo if ty.lo is not None else -(2 ** 70)
         hi = ty.hi if ty.hi is not None else 2 ** 70
